@@ -656,6 +656,20 @@ func TestReplay(t *testing.T) {
 		t.Fatal(err)
 	}
 	b, _ := json.Marshal(raw)
+	if _, isSilent := raw["silent_peer"]; isSilent {
+		var c SilentCase
+		json.Unmarshal(b, &c)
+		if key, detail, _ := runSilent(t, c); key != "" {
+			vkit.Violation(t, key, detail, c)
+		}
+		return
+	}
+	if _, isHS := raw["hs_sequence"]; isHS {
+		var c HSCase
+		json.Unmarshal(b, &c)
+		runHS(t, c)
+		return
+	}
 	if _, isLayer := raw["layers"]; isLayer {
 		var c LayerCase
 		json.Unmarshal(b, &c)
